@@ -15,6 +15,7 @@ import (
 	"sort"
 
 	ipfslog "berty.tech/go-ipfs-log"
+	"berty.tech/go-ipfs-log/enc"
 	"berty.tech/go-ipfs-log/entry"
 	"berty.tech/go-ipfs-log/entry/sorting"
 	"berty.tech/go-ipfs-log/iface"
@@ -187,8 +188,49 @@ func encodeObj(obj interface{}) ([]byte, error) {
 }
 
 // corruptBlock produces replacement bytes for a stored block. desc explains what was done.
-func corruptBlock(r *Run, raw []byte, manifest bool) ([]byte, string) {
+// poisonInner: CBOR a peer holding the link key could put inside the encrypted links field.
+var poisonInner = [][]byte{
+	{0xa1, 0x64, 'n', 'e', 'x', 't', 0x81, 0xd8, 0x2a, 0x40},                   // next: [42(h'')]
+	{0xa1, 0x64, 'r', 'e', 'f', 's', 0x81, 0xd8, 0x2a, 0x40},                   // refs: [42(h'')]
+	{0xa1, 0x64, 'n', 'e', 'x', 't', 0x81, 0xd8, 0x2a, 0x41, 0x00},             // only the multibase prefix
+	{0xa1, 0x64, 'n', 'e', 'x', 't', 0x81, 0xd8, 0x2a, 0x43, 0x01, 0x71, 0x12}, // wrong prefix, truncated cid
+	{0xa1, 0x64, 'n', 'e', 'x', 't', 0x81, 0xd8, 0x2a, 0xf6},                   // 42(null)
+	{0xa1, 0x64, 'n', 'e', 'x', 't', 0xf6},                                     // next: null
+	{0xa1, 0x64, 'n', 'e', 'x', 't', 0x05},                                     // next: 5
+	{0xa1, 0x64, 'n', 'e', 'x', 't', 0x81, 0x63, 'a', 'b', 'c'},                // next: ["abc"]
+	{0xa0}, {0x80}, {0xf6}, {0x01}, {0xff}, {},
+	{0xa1, 0x64, 'n', 'e', 'x', 't', 0x9f}, // unterminated indefinite array
+}
+
+func corruptBlock(r *Run, raw []byte, manifest bool, linkKey []byte) ([]byte, string) {
 	how := r.Choose("corrupt-class", 10)
+	if linkKey != nil && !manifest && r.Choose("poison-inner", 4) == 0 {
+		// a hostile or buggy peer that shares the link key: the encrypted links open fine and hold odd CBOR
+		var obj map[string]interface{}
+		if err := cbornode.DecodeInto(raw, &obj); err != nil {
+			return nil, ""
+		}
+		sk, err := enc.NewSecretbox(append([]byte(nil), linkKey...))
+		if err != nil {
+			return nil, ""
+		}
+		nonce := make([]byte, 24)
+		for i := range nonce {
+			nonce[i] = byte(r.Choose("nonce", 256))
+		}
+		k := r.Choose("poison-inner-kind", len(poisonInner))
+		sealed, err := sk.SealWithNonce(poisonInner[k], nonce)
+		if err != nil {
+			return nil, ""
+		}
+		obj["enc_links"] = base64.StdEncoding.EncodeToString(sealed)
+		obj["enc_links_nonce"] = base64.StdEncoding.EncodeToString(nonce)
+		b, err := encodeObj(obj)
+		if err != nil {
+			return nil, ""
+		}
+		return b, fmt.Sprintf("poison-inner-links#%d", k)
+	}
 	switch {
 	case how < 6: // structure-level
 		var obj map[string]interface{}
@@ -322,7 +364,7 @@ func RunC12(r *Run) {
 		if !ok {
 			r.Harness("victim block missing")
 		}
-		alt, desc := corruptBlock(r, raw, manifest)
+		alt, desc := corruptBlock(r, raw, manifest, w.LinkKeyBytes)
 		if alt == nil {
 			r.Logf("corruption not applicable")
 			continue
